@@ -65,6 +65,7 @@ type Decl struct {
 	Index     [][]string
 }
 
+//go:norace
 func baseType(t string) (base string, arr bool, k int) {
 	i := strings.IndexByte(t, '[')
 	if i < 0 {
@@ -79,6 +80,8 @@ func baseType(t string) (base string, arr bool, k int) {
 }
 
 // PGType is the documented column type for an ABI type.
+//
+//go:norace
 func PGType(abi string) string {
 	b, _, _ := baseType(abi)
 	switch {
@@ -94,6 +97,8 @@ func PGType(abi string) string {
 }
 
 // FieldPGType is the documented column type of a block/tx/receipt/log/trace field.
+//
+//go:norace
 func FieldPGType(name string) string {
 	switch name {
 	case "src_name", "ig_name", "trace_action_call_type":
@@ -110,6 +115,7 @@ func FieldPGType(name string) string {
 	}
 }
 
+//go:norace
 func (d *Decl) node(in Input) *ref.Node {
 	b, arr, k := baseType(in.Type)
 	if arr {
@@ -119,6 +125,8 @@ func (d *Decl) node(in Input) *ref.Node {
 }
 
 // Signature is the canonical event signature (scalar and one-dimensional array inputs only).
+//
+//go:norace
 func (d *Decl) Signature() string {
 	var ts []string
 	for _, in := range d.Inputs {
@@ -127,8 +135,10 @@ func (d *Decl) Signature() string {
 	return d.Event + "(" + strings.Join(ts, ",") + ")"
 }
 
+//go:norace
 func (d *Decl) SigHash() []byte { return ref.Keccak256([]byte(d.Signature())) }
 
+//go:norace
 func (d *Decl) NumIndexed() int {
 	n := 0
 	for _, in := range d.Inputs {
@@ -139,6 +149,7 @@ func (d *Decl) NumIndexed() int {
 	return n
 }
 
+//go:norace
 func filterJSON(op string, arg []string, r *Ref, m map[string]any) {
 	if op != "" {
 		m["filter_op"] = op
@@ -152,6 +163,8 @@ func filterJSON(op string, arg []string, r *Ref, m map[string]any) {
 }
 
 // Columns lists the user-declared table columns (the required identity columns are added by shovel).
+//
+//go:norace
 func (d *Decl) Columns() [][2]string {
 	var cols [][2]string
 	for _, in := range d.Inputs {
@@ -175,6 +188,8 @@ func (d *Decl) Columns() [][2]string {
 }
 
 // Integration renders the integration as the JSON tree of a config file.
+//
+//go:norace
 func (d *Decl) Integration() map[string]any {
 	ig := map[string]any{"name": d.Name, "enabled": d.Enabled == nil || *d.Enabled}
 	var srcs []any
@@ -241,6 +256,8 @@ type Source struct {
 }
 
 // ConfJSON renders a complete configuration file.
+//
+//go:norace
 func ConfJSON(srcs []Source, decls []*Decl) string {
 	var ss []any
 	for _, s := range srcs {
@@ -273,12 +290,15 @@ type LogNote struct {
 }
 
 // U256 / Addr32 / helpers to build words.
+//
+//go:norace
 func U(n uint64) []byte {
 	w := make([]byte, 32)
 	new(big.Int).SetUint64(n).FillBytes(w)
 	return w
 }
 
+//go:norace
 func WordBig(x *big.Int) []byte {
 	w := make([]byte, 32)
 	if x.Sign() >= 0 {
@@ -290,6 +310,7 @@ func WordBig(x *big.Int) []byte {
 	return w
 }
 
+//go:norace
 func AddrWord(a []byte) []byte {
 	w := make([]byte, 32)
 	copy(w[12:], a)
@@ -299,6 +320,8 @@ func AddrWord(a []byte) []byte {
 // MkLog builds a log of d's event emitted by addr carrying vals (one value per input: a
 // 32-byte word for static types, raw bytes for bytes/string, []any of those for arrays).
 // Indexed dynamic/array inputs are not supported (their topic is a hash).
+//
+//go:norace
 func (d *Decl) MkLog(addr []byte, vals ...ref.Value) *simeth.Log {
 	if len(vals) != len(d.Inputs) {
 		panic("MkLog: value count")
@@ -323,6 +346,8 @@ func (d *Decl) MkLog(addr []byte, vals ...ref.Value) *simeth.Log {
 // ---- typed values -----------------------------------------------------------------------
 
 // DBVal maps an ABI value to the documented stored value.
+//
+//go:norace
 func DBVal(abi string, raw []byte) any {
 	b, _, _ := baseType(abi)
 	switch {
@@ -349,6 +374,8 @@ func DBVal(abi string, raw []byte) any {
 }
 
 // FieldVal is the node's value of a block/tx/receipt/log/trace field for one item.
+//
+//go:norace
 func FieldVal(name string, src string, chainID uint64, ig string, b *simeth.Block, t *simeth.Tx, l *simeth.Log, tr *simeth.Trace, trIdx int) any {
 	bi := func(x *big.Int) any { return new(big.Int).Set(x) }
 	bu := func(x uint64) any { return new(big.Int).SetUint64(x) }
@@ -430,6 +457,8 @@ var AllFields = []string{"src_name", "ig_name", "chain_id", "block_hash", "block
 type Row map[string]any
 
 // Render is the canonical text of a value.
+//
+//go:norace
 func Render(v any) string {
 	switch x := v.(type) {
 	case nil:
@@ -454,6 +483,8 @@ func Render(v any) string {
 }
 
 // RenderRow renders the given columns of a row.
+//
+//go:norace
 func RenderRow(r Row, cols []string) string {
 	var sb strings.Builder
 	for i, c := range cols {
@@ -468,6 +499,8 @@ func RenderRow(r Row, cols []string) string {
 }
 
 // TableCols returns the column names of a table, sorted, without volatile columns.
+//
+//go:norace
 func (w *W) TableCols(table string) []string {
 	var out []string
 	for _, c := range w.PG.Columns(table) {
@@ -478,6 +511,8 @@ func (w *W) TableCols(table string) []string {
 }
 
 // DumpRows returns the committed rows of a table rendered canonically and sorted.
+//
+//go:norace
 func RenderDump(rows []simpg.Row, cols []string) []string {
 	var out []string
 	for _, r := range rows {
@@ -487,6 +522,7 @@ func RenderDump(rows []simpg.Row, cols []string) []string {
 	return out
 }
 
+//go:norace
 func RenderRows(rows []Row, cols []string) []string {
 	var out []string
 	for _, r := range rows {
@@ -497,6 +533,8 @@ func RenderRows(rows []Row, cols []string) []string {
 }
 
 // DiffSorted explains the difference of two sorted string multisets.
+//
+//go:norace
 func DiffSorted(got, want []string) string {
 	var sb strings.Builder
 	i, j, n := 0, 0, 0
@@ -526,6 +564,7 @@ type Cursor struct {
 	ID      int64
 }
 
+//go:norace
 func (w *W) Cursors() []Cursor {
 	var out []Cursor
 	for _, r := range w.PG.Dump("shovel.task_updates") {
@@ -542,6 +581,8 @@ func (w *W) Cursors() []Cursor {
 }
 
 // Latest returns the highest cursor of a pair.
+//
+//go:norace
 func (w *W) Latest(src, ig string) (Cursor, bool) {
 	var best Cursor
 	ok := false
@@ -559,6 +600,7 @@ func (w *W) Latest(src, ig string) (Cursor, bool) {
 // refLookup(table column value) answers reference filters.
 type RefLookup func(integration, column string, v []byte) bool
 
+//go:norace
 func acceptOne(op string, arg []string, r *Ref, v any, look RefLookup) (set bool, res bool) {
 	if len(arg) == 0 && r == nil {
 		return false, true
@@ -633,6 +675,7 @@ func acceptOne(op string, arg []string, r *Ref, v any, look RefLookup) (set bool
 	return false, true
 }
 
+//go:norace
 func unhex(s string) []byte {
 	s = strings.TrimPrefix(strings.TrimPrefix(s, "0x"), "0X")
 	if len(s)%2 == 1 {
@@ -642,6 +685,7 @@ func unhex(s string) []byte {
 	return b
 }
 
+//go:norace
 func bytesContains(a, b []byte) bool { return strings.Contains(string(a), string(b)) }
 
 type acc struct {
@@ -649,6 +693,7 @@ type acc struct {
 	set, val bool
 }
 
+//go:norace
 func (a *acc) add(set, res bool) {
 	if !set {
 		return
@@ -663,9 +708,13 @@ func (a *acc) add(set, res bool) {
 		a.val = a.val || res
 	}
 }
+
+//go:norace
 func (a *acc) ok() bool { return !a.set || a.val }
 
 // identity columns shovel adds when missing
+//
+//go:norace
 func (d *Decl) autoFields() []string {
 	has := map[string]bool{}
 	for _, f := range d.Fields {
@@ -707,6 +756,8 @@ func (d *Decl) autoFields() []string {
 }
 
 // Kind is "log", "trace" or "tx".
+//
+//go:norace
 func (d *Decl) Kind() string {
 	for _, in := range d.Inputs {
 		if in.Column != "" {
@@ -722,6 +773,8 @@ func (d *Decl) Kind() string {
 }
 
 // Expect computes the declared projection of blocks lo..hi (inclusive) of chain c for (src, d).
+//
+//go:norace
 func (d *Decl) Expect(c *simeth.Chain, src string, chainID uint64, lo, hi uint64, look RefLookup) []Row {
 	var rows []Row
 	auto := d.autoFields()
@@ -830,6 +883,8 @@ func (d *Decl) Expect(c *simeth.Chain, src string, chainID uint64, lo, hi uint64
 
 // filterView presents a stored value to the filter predicate in the kinds the property lists:
 // byte strings, strings, unsigned integers (int64 fields are compared as integers).
+//
+//go:norace
 func filterView(v any) any {
 	switch x := v.(type) {
 	case int64:
